@@ -316,6 +316,25 @@ def gen_consts():
 
     lc = Src("dateparser/languages/locale.py")
     RX("reNumeralPattern", regex_of(lc.assign("NUMERAL_PATTERN")), "locale.py NUMERAL_PATTERN")
+    # translate_search: constants and the shape of the two-token look-ahead test
+    ts = lc.func("Locale.translate_search")
+    SL("tsDashes", const_eval(lc.assign("dashes", "Locale.translate_search")), "locale.py translate_search dashes")
+    SL("tsJointUnsupported", const_eval(lc.assign("word_joint_unsupported_languages", "Locale.translate_search")), "locale.py translate_search word_joint_unsupported_languages")
+    strip_args = sorted({const_eval(n.args[0]) for n in ast.walk(ts) if isinstance(n, ast.Call) and getattr(n.func, "attr", "") == "strip" and n.args})
+    S("tsStripChars", strip_args[0] if len(strip_args) == 1 else "", "locale.py translate_search word.strip(...) characters")
+    guarded = False
+    for n in ast.walk(ts):
+        if isinstance(n, ast.If) and "current_and_next_joined in dictionary" in ast.unparse(n.test):
+            guarded = any(isinstance(c, ast.Compare) and ast.unparse(c).replace(" ", "") in ("i<last_token_index", "last_token_index>i", "i+1<=last_token_index", "i!=last_token_index")
+                          for c in ast.walk(n.test))
+    emit("/-- locale.py translate_search: the two-token look-ahead branch is guarded by `i < last_token_index` -/\ndef tsLookaheadGuarded : Bool := " + lbool(guarded))
+    se = Src("dateparser/search/search.py")
+    SL("searchSplitters", const_eval(se.assign("splitters", "_ExactLanguageSearch.split_if_not_parsed")), "search.py split_if_not_parsed splitters")
+    SL("searchBadTranslate", const_eval(se.assign("bad_translate_with_search", "_ExactLanguageSearch.search_parse")), "search.py bad_translate_with_search")
+    pfo = se.func("_ExactLanguageSearch.parse_found_objects")
+    SL("searchStripChars", [const_eval(n.args[0]) for n in ast.walk(pfo) if isinstance(n, ast.Call) and getattr(n.func, "attr", "") == "strip" and n.args], "search.py parse_found_objects .strip(...) arguments, source order")
+    SL("searchItemReplace", [const_eval(n.args[0]) for n in ast.walk(se.func("_ExactLanguageSearch.parse_item")) if isinstance(n, ast.Call) and getattr(n.func, "attr", "") == "replace"], "search.py parse_item removed substrings")
+    RX("reSearchRelative", regex_of(se.assign("RELATIVE_REG")), "search.py RELATIVE_REG")
 
     sp = Src("dateparser/utils/strptime.py")
     RX("reTimeMatcher", regex_of(sp.assign("TIME_MATCHER")), "utils/strptime.py TIME_MATCHER")
